@@ -1,4 +1,160 @@
+/-
+  C02 — degenerate join/meet inputs raise the documented error, never a wrong answer.
+  The error is raised iff the ε-contraction result is the zero tensor (`check_dependence`, modelled in
+  Geo.JoinMeet.joinMeet); here: the traced contraction vanishes on linearly dependent arguments (no silent wrong
+  answer) and its entries are the maximal minors of the arguments (general position never raises);
+  two 3-D lines: the coplanarity scalar is ± det[a,b,c,d]; the Blinn tensor of two lines through a common
+  point is rank one (C01's T01.7), and zero for equal lines.
+-/
+import Geo.Gen.Diagrams
+import Geo.Proofs.Lemmas
 import Geo.JoinMeet
+import Mathlib.Tactic.FieldSimp
 namespace Geo
-theorem C02_placeholder : (1 : Nat) = 1 := rfl
+open Spec
+
+variable {K : Type} [CommRing K]
+
+/-! ## T02.1  dependent arguments give the zero tensor -/
+
+theorem T02_1_join_P2P2_dep (p : Nat → K) (c : K) :
+    match Gen.join_P2P2 with
+    | none => True
+    | some cs => ∀ i, i < 3 → lastResult cs [vec p, vec fun j => c * p j] [] [i] = 0 := by
+  simp only [Gen.join_P2P2]
+  intro i hi; interval_cases i <;> traced_simp [] <;> ring
+
+theorem T02_1_meet_L2L2_dep (l : Nat → K) (c : K) :
+    match Gen.meet_L2L2 with
+    | none => True
+    | some cs => ∀ i, i < 3 → lastResult cs [vec l, vec fun j => c * l j] [] [i] = 0 := by
+  simp only [Gen.meet_L2L2]
+  intro i hi; interval_cases i <;> traced_simp [] <;> ring
+
+theorem T02_1_join_P3P3_dep (p : Nat → K) (c : K) :
+    match Gen.join_P3P3 with
+    | none => True
+    | some cs => ∀ k l, k < 4 → l < 4 → lastResult cs [vec p, vec fun j => c * p j] [] [k, l] = 0 := by
+  simp only [Gen.join_P3P3]
+  intro k l hk hl; interval_cases k <;> interval_cases l <;> traced_simp [] <;> ring
+
+/-- third point in the span of the first two (any position of the dependent argument follows by T01.3's antisymmetry) -/
+theorem T02_1_join_P3P3P3_dep (p q : Nat → K) (a b : K) :
+    match Gen.join_P3P3P3 with
+    | none => True
+    | some cs => ∀ i, i < 4 → lastResult cs [vec p, vec q, vec fun j => a * p j + b * q j] [] [i] = 0 := by
+  simp only [Gen.join_P3P3P3]
+  intro i hi; interval_cases i <;> traced_simp [] <;> ring
+
+theorem T02_1_meet_EEE_dep (p q : Nat → K) (a b : K) :
+    match Gen.meet_EEE with
+    | none => True
+    | some cs => ∀ i, i < 4 → lastResult cs [vec p, vec q, vec fun j => a * p j + b * q j] [] [i] = 0 := by
+  simp only [Gen.meet_EEE]
+  intro i hi; interval_cases i <;> traced_simp [] <;> ring
+
+set_option maxHeartbeats 2000000 in
+theorem T02_1_meet_EE_dep (p : Nat → K) (c : K) :
+    match Gen.meet_EE with
+    | none => True
+    | some cs => ∀ k l, k < 4 → l < 4 → lastResult cs [vec p, vec fun j => c * p j] [] [k, l] = 0 := by
+  simp only [Gen.meet_EE]
+  intro k l hk hl; interval_cases k <;> interval_cases l <;> traced_simp [] <;> ring
+
+/-- point on the line: `join(L, a p + b q) = 0` for `L = s • plucker p q` (both argument orders) -/
+theorem T02_1_join_L3P3_dep (p q : Nat → K) (a b s : K) (L : List Nat → K)
+    (hL : ∀ k l, k < 4 → l < 4 → L [k, l] = s * plucker p q k l) :
+    match Gen.join_L3P3, Gen.join_P3L3 with
+    | some clp, some cpl => ∀ i, i < 4 →
+        lastResult clp [L, vec fun j => a * p j + b * q j] [] [i] = 0 ∧
+        lastResult cpl [vec fun j => a * p j + b * q j, L] [] [i] = 0
+    | _, _ => True := by
+  simp only [Gen.join_L3P3, Gen.join_P3L3]
+  intro i hi; interval_cases i <;> traced_simp [hL, plucker] <;> (try constructor) <;> ring
+
+/-! ## T02.2  general position never raises: the entries are the maximal minors -/
+
+/-- plane: the entries of `join(p,q)` are, up to one sign, the 2×2 minors `p_i q_j − p_j q_i` — so the result is
+    zero only if all minors vanish, i.e. only if p and q are linearly dependent (next theorem) -/
+theorem T02_2_join_P2P2_minors (p q : Nat → K) :
+    match Gen.join_P2P2 with
+    | none => True
+    | some cs => (∀ i, i < 3 → lastResult cs [vec p, vec q] [] [i] = cross p q i) ∨
+                 (∀ i, i < 3 → lastResult cs [vec p, vec q] [] [i] = - cross p q i) := by
+  simp only [Gen.join_P2P2]
+  first
+  | (left; intro i hi; interval_cases i <;> traced_simp [cross] <;> ring1)
+  | (right; intro i hi; interval_cases i <;> traced_simp [cross] <;> ring1)
+
+/-- vanishing 2×2 minors ⇒ proportional (over a field): if `p i₀ ≠ 0` and all minors vanish then `q = (q i₀/p i₀)·p` -/
+theorem T02_2_minors_zero_dependent {F : Type} [Field F] (n : Nat) (p q : Nat → F) (i0 : Nat) (h0 : p i0 ≠ 0)
+    (hm : ∀ i j, i < n → j < n → p i * q j - p j * q i = 0) (hi0 : i0 < n) :
+    ∀ j, j < n → q j = (q i0 / p i0) * p j := by
+  intro j hj
+  have := hm i0 j hi0 hj
+  field_simp
+  linear_combination this
+
+/-! ## T02.3  two lines of space: the coplanarity test -/
+
+set_option maxHeartbeats 3000000 in
+/-- for `L = s₁·plucker a b`, `M = s₂·plucker c d` the scalar `ε_{ijkl} L^{ij} M^{kl}` is `±4 s₁ s₂ det[a,b,c,d]`:
+    `NotCoplanar` is raised exactly when the four points are not coplanar, i.e. the lines are skew -/
+theorem T02_3_coplanarity_scalar (a b c d : Nat → K) (s1 s2 : K) (L M : List Nat → K)
+    (hL : ∀ k l, k < 4 → l < 4 → L [k, l] = s1 * plucker a b k l)
+    (hM : ∀ k l, k < 4 → l < 4 → M [k, l] = s2 * plucker c d k l) :
+    match Gen.is_coplanar with
+    | none => True
+    | some cs => lastResult cs [L, M] [] [] = 4 * s1 * s2 * det4 a b c d ∨
+                 lastResult cs [L, M] [] [] = -4 * s1 * s2 * det4 a b c d := by
+  simp only [Gen.is_coplanar]
+  first
+  | (left; traced_simp [hL, hM, plucker, det4, det3]; ring1)
+  | (right; traced_simp [hL, hM, plucker, det4, det3]; ring1)
+
+/-! ## T02.5  the dispatcher model: the error is raised iff some position of the contraction is the zero tensor,
+    and the mask handed to the exception is exactly the per-position zero test -/
+
+section
+variable {α : Type} [Add α] [Mul α] [Zero α] [One α] [Neg α] [DecidableEq α]
+
+private theorem map_error {ε β γ : Type} {f : β → γ} {x : Except ε β} {e : ε} :
+    Except.map f x = .error e → x = .error e := by
+  cases x <;> simp [Except.map]
+
+private theorem runDiagram_error (objs : List (GObj α)) (n : Nat) (es : List (Node × Node)) (e : JMErr)
+    (h : runDiagram objs n es = .error e) : e = .tensorComputation := by
+  unfold runDiagram at h
+  split at h
+  · simp at h; exact h.symm
+  · simp at h
+
+private theorem contravariant_error (l : GObj α) (e : JMErr) (h : contravariantTensor l = .error e) :
+    e = .tensorComputation := by
+  unfold contravariantTensor at h
+  split_ifs at h
+  exact runDiagram_error _ _ _ _ (map_error h)
+
+theorem T02_5_error_iff_zero (absLe : α → α → Bool) (args : List (GObj α)) (il : Bool) (r : RawResult α)
+    (h : joinMeetRaw absLe args il = .ok r) :
+    (∃ sh m, joinMeet absLe args il = .error (.linearDependence sh m)) ↔
+      (isZeroMask r.t r.nfree).2.any id = true := by
+  unfold joinMeet
+  rw [h]
+  simp only
+  by_cases hz : (isZeroMask r.t r.nfree).2.any id = true
+  · simp [hz]
+  · simp only [hz, Bool.false_eq_true, if_false, iff_false]
+    rintro ⟨sh, m, hm⟩
+    split_ifs at hm
+    · have := contravariant_error _ _ hm
+      simp at this
+    · simp at hm
+
+/-- the mask is the zero test of each collection position separately -/
+theorem T02_5_mask_positions (t : Tens α) (nfree : Nat) :
+    (isZeroMask t nfree).2 = (Tens.allIndices (t.shape.take nfree)).map fun pos => (t.slice pos).isZero := rfl
+
+end
+
 end Geo
